@@ -186,7 +186,7 @@ func main() {
 		var v notation.Verifier
 		var err error
 		mts := lib.NewMemTS().Put(storeType+":x", set.chain[len(set.chain)-1])
-		if (i/4)%3 == 2 {
+		if (i/6)%2 == 1 { // alternates per block of (interface x action) so that every combination meets both constructors
 			// the deprecated constructor must select the same validator
 			o2 := opts
 			doc, pm := o2.OCITrustPolicy, o2.PluginManager
